@@ -18,7 +18,7 @@ RULE = (
     "every structure of the input list (corpus structures re-emitted from their abstract atom tables; lattice structures with at least one "
     "interaction) x every single transformation (d=1) and every pair of transformations from different groups (d=2) of the finite family: rigid "
     "{23 cube rotations, [60 icosahedral], 9 translations up to +-500 A}, atom order inside residues {reversed, rotated by 1, sorted by name, sorted "
-    "descending}, order-preserving relabelings {monotone chain map, numbers +1000, numbers starting at -20, label ids != auth ids}, format {PDB instead "
+    "descending}, order-preserving relabelings {monotone chain map, numbers +1000, numbers starting at -300, residues sharing a number and told apart by insertion codes (pairs / triples), label ids != auth ids}, format {PDB instead "
     "of mmCIF}; rigid+format pairs use decimal-exact motions (axis permutations with sign flips, decimal translations) applied to the coordinate "
     "strings. The full annotation (base pairs with classes and Saenger, stackings, BPh, BR), BPSEQ, dot-bracket and extended dot-bracket of the "
     "transformed input must equal those of the original up to the applied renaming; inputs whose smallest decision margin (reference annotator) is "
@@ -51,7 +51,7 @@ def transformations(tier):
         T.append(("rigid", "translate", k))
     for k in ("reversed", "rotated", "sorted", "sorted-desc"):
         T.append(("order", k, None))
-    for k in ("chains", "plus1000", "from-20", "label-differs"):
+    for k in ("chains", "plus1000", "from-300", "icode-pairs", "icode-triples", "label-differs"):
         T.append(("relabel", k, None))
     T.append(("format", "pdb", None))
     return T
@@ -75,7 +75,7 @@ def cases(tier):
     q = tier == "quick"
     T = transformations(tier)
     inputs = [dict(file=f) for f in (FILES_Q if q else FILES_T)] + [dict(lattice=c) for c in lattice_inputs(tier)]
-    reps = [t for t in T if t[0] != "rigid"] + [("rigid", "cube", 5), ("rigid", "cube", 14), ("rigid", "cube", 22), ("rigid", "translate", 6), ("rigid", "translate", 8)] + \
+    reps = [t for t in T if t[0] != "rigid"] + [("rigid", "cube", 5), ("rigid", "cube", 14), ("rigid", "cube", 22), ("rigid", "translate", 6), ("rigid", "translate", 7), ("rigid", "translate", 8)] + \
            ([("rigid", "ico", 17)] if not q else [])
     for k, inp in enumerate(inputs):
         for t in T:
@@ -192,10 +192,24 @@ def apply_abstract(t, tr):
         elif kind == "plus1000":
             for a in out:
                 a["resseq"] += 1000
-        elif kind == "from-20":
+        elif kind == "from-300":
             lo = min(a["resseq"] for a in out)
             for a in out:
-                a["resseq"] = a["resseq"] - lo - 20
+                a["resseq"] = a["resseq"] - lo - 300
+        elif kind in ("icode-pairs", "icode-triples"):
+            # order-preserving: consecutive residues of a chain share a number and differ by insertion code only (17, 17A, 17B, 18, ...)
+            g = 2 if kind == "icode-pairs" else 3
+            res = corpus.residues(out)
+            ranks = {}
+            for ch in {ident[1] for ident, _ in res}:
+                members = sorted({(ident[2], ident[3] or " ") for ident, _ in res if ident[1] == ch})
+                for k, m in enumerate(members):
+                    ranks[(ch,) + m] = k  # rank in identity order, so the relabeling preserves the order whatever the file order is
+            for ident, atoms in res:
+                k = ranks[(ident[1], ident[2], ident[3] or " ")]
+                for a in atoms:
+                    a["resseq"] = 10 + k // g
+                    a["icode"] = [None, "A", "B"][k % g]
         elif kind == "label-differs":
             for a in out:
                 a["_label_differs"] = True
@@ -207,7 +221,8 @@ def apply_abstract(t, tr):
 def read_table(t, fmt):
     from rnapolis.parser import read_3d_structure
 
-    ld = any(a.get("_label_differs") for a in t)
+    # label_seq_id is unique per residue in real mmCIF files: when insertion codes are present the label ids must differ from the auth ids
+    ld = any(a.get("_label_differs") for a in t) or any(a["icode"] for a in t)
     text = enumio.emit_pdb(t) if fmt == "PDB" else enumio.emit_cif(t, label_differs=ld)
     path = os.path.join(scratch_dir(), "c05." + ("pdb" if fmt == "PDB" else "cif"))
     with open(path, "w") as f:
@@ -299,9 +314,15 @@ def run_case(case):
             s1 = _rotate(s1, enum3d.icosahedral_rotations()[tr[2]])
         else:
             s1 = fam.variant(s1, "translate", tuple(float(v) for v in TRANSLATIONS[tr[2]]))
-    r = observe(digest, s1)
     out = []
     name = "+".join("%s:%s" % (x[0], x[1]) for x in ts)
+    # residues of the transformed input must carry exactly the identities that were written (the renaming is known)
+    want_ids = [i[1:] for i, _ in corpus.residues(tt)]
+    got_ids = [(r_.chain, r_.number, r_.icode, r_.name) for r_ in s1.residues]
+    if got_ids != want_ids:
+        bad = next((g, w) for g, w in zip(got_ids + [None] * len(want_ids), want_ids + [None] * len(got_ids)) if g != w)
+        out.append(viol("identity:%s" % "+".join(sorted(set(groups))), "%s: residue identities read differ from the ones written: got %s, written %s (input %s)" % (name, bad[0], bad[1], case.get("file") or "lattice")))
+    r = observe(digest, s1)
     if r[0] == "exc":
         out.append(viol("transformed:%s:%s" % (groups[0], r[1]), "annotating the transformed input (%s) raised %s" % (name, r[2])))
     else:
